@@ -15,25 +15,30 @@ def H(name, cost, desc, bounds, tiers=Q, **kw):
 HARNESSES = [
     H("c01_add", 60, "add on two fixnums vs i128 sum; overflow -> bignum of the exact value",
       "both operands full 56-bit"),
-    H("c01_sub", 60, "sub vs i128 difference", "full 56-bit, rhs != MIN"),
+    H("c01_sub", 150, "sub vs i128 difference (S10: neg modelled for rhs != MIN; neg itself: c01_neg)",
+      "full 56-bit, rhs != MIN"),
     H("c01_neg", 20, "neg", "full 56-bit"),
     H("c01_abs", 20, "abs (MIN -> 2^55 bignum)", "full 56-bit"),
     H("c01_sign", 10, "sign", "full 56-bit"),
     H("c01_min_max", 10, "min/max", "full 56-bit"),
     H("c01_bitops", 30, "/\\ \\/ xor \\ vs two's complement", "full 56-bit"),
     H("c01_mul_16x16", 60, "mul vs i128 product", "|x|,|y| < 2^16"),
-    H("c01_mul_55x7", 120, "mul crossing the fixnum boundary", "|x| < 2^55, |y| < 2^7"),
+    H("c01_mul_55x7", 420, "mul crossing the fixnum boundary", "|x| < 2^55, |y| < 2^7", tiers=T,
+      timeout=3000),
     H("c01_mul_7x55", 120, "mul crossing the fixnum boundary (swapped)", "|x| < 2^7, |y| < 2^55",
       tiers=T),
     H("c01_mul_32x31", 600, "mul vs i128 product", "|x| < 2^32, |y| < 2^31", tiers=T,
       timeout=3000),
-    H("c01_mul_overflow_delegates", 60, "i64-overflowing product is delegated to dashu with "
-      "both operands intact", "x full 56-bit, y = +-2^k, k 9..55, product overflows i64"),
-    H("c01_div_rem_mod_16x16", 120, "// rem mod vs defining equations", "|x|,|y| < 2^16"),
+    H("c01_mul_overflow_delegates", 380, "i64-overflowing product is delegated to dashu with "
+      "both operands intact", "x full 56-bit, y = +-2^k, k 9..55, product overflows i64", tiers=T,
+      timeout=3000),
+    H("c01_div_rem_mod_8x8", 430, "// rem mod vs defining equations", "|x|,|y| < 2^8", timeout=1500),
+    H("c01_div_rem_mod_16x16", 1200, "// rem mod vs defining equations", "|x|,|y| < 2^16", tiers=T,
+      timeout=5400),
     H("c01_div_rem_mod_55x8", 300, "// rem mod", "|x| < 2^55, |y| < 2^8", tiers=T, timeout=3000),
     H("c01_div_rem_mod_24x24", 600, "// rem mod", "|x|,|y| < 2^24", tiers=T, timeout=3000),
     H("c01_idiv_min_by_minus_one", 10, "MIN // -1 = 2^55 as a bignum", "concrete"),
-    H("c01_int_floor_div", 120, "div vs floor inequality", "|x|,|y| < 2^8", timeout=1500),
+    H("c01_int_floor_div", 490, "div vs floor inequality (S10)", "|x|,|y| < 2^8", tiers=T, timeout=3000),
     H("c01_shr_nonneg_count", 60, ">> by any count 0..2^55 is floor(x/2^s) (F1 site)",
       "x full 56-bit, s 0..2^55-1; sibling shl stubbed away"),
     H("c01_shl_nonneg_count", 90, "<< by any count: exact fixnum or delegated bignum shift",
@@ -49,9 +54,10 @@ HARNESSES = [
       timeout=1500),
     H("c01_gcd_zero_right", 200, "gcd(y,0) = |y| incl. MIN", "y full 56-bit", tiers=T,
       timeout=1500),
-    H("c01_int_pow_small", 120, "^ : exact power", "|base| <= 40, exponent 0..6"),
+    H("c01_int_pow_small", 510, "^ : exact power", "|base| <= 40, exponent 0..6", tiers=T, timeout=3000),
     H("c01_int_pow_negative_exponent", 120, "^ with negative exponent: 0 -> undefined, |b|>1 -> "
-      "type_error(float), +-1 -> delegated", "base full 56-bit, exponent any negative fixnum"),
+      "type_error(float), +-1 -> delegated", "base full 56-bit, exponent any negative fixnum", tiers=T,
+      timeout=3000),
     H("c01_int_pow_overflow_delegates", 120, "i64-overflowing power delegated to binary_pow "
       "with (base, exponent)", "base in {2,-2,3,10}, exponent 64..70"),
 ]
@@ -71,12 +77,14 @@ ASSUME = [
     "recorders that end the error path (the error kind is checked, the error term is not)",
     "S6: in the shift harnesses the mutually recursive sibling is stubbed (negative counts are "
     "checked by the *_forwards harnesses)",
+    "S10: in c01_sub / c01_int_floor_div, neg is replaced by its fixnum case for operands != MIN "
+    "(the MIN case is c01_neg's); ",
     "operands that are already bignums or rationals are outside (Kani mis-models "
     "TypedArenaPtr::deref, DESIGN P18)",
 ]
 BOUNDS = ("full 56-bit operands for + - neg abs sign min max /\\ \\/ xor \\ << >>; * : 16x16 and "
           "55x7 bits (quick), +7x55, 32x31 (thorough); // rem mod div: 16x16 (quick), 55x8, "
-          "24x24 (thorough); gcd < 64; ^ |base|<=40, exp -3..6; unwind 10..40")
+          "24x24 (thorough) - quick: 8x8; gcd < 64; ^ |base|<=40, exp -3..6; unwind 10..40")
 OUTSIDE = ("values computed by dashu; bignum/rational operand arms; nested expressions (C03)")
 
 
